@@ -175,6 +175,45 @@ def run(ctx):
         res.check(bad is None, "C15-R7", "always-converts:%s" % fname.split("::")[-1], f.loc, "returns a packet on every path",
                   "%s returns no packet when `%s`: a well-formed message of a supported kind yields nothing" %
                   (fname, ("%s %s %s" % (bad[1][1], bad[1][2], bad[1][3]) if bad and bad[1] and bad[1][0] == "cmp" else (bad[1][1] if bad and bad[1] else ""))))
+    # ... and the packet they return carries the payload they built: on every path that returns the packet itself (not another
+    # converter's result), Packet::setPayload(<the local payload object>) runs on that packet after the last setter call on that object
+    for fname in sorted(spec["tecmp_payload"]):
+        f = fb.fn(fname)
+        setters = {row["setter"] for row in spec["tecmp_payload"][fname]}
+        bad = None
+        npk = 0
+        for p in paths.enumerate_paths(f):
+            r = p.returns()
+            if r is None or p.end != "exit" or r.get("e") is None:
+                continue
+            v = strip_all_casts(r["e"])
+            while v.get("k") == "construct" and len(v.get("args", [])) == 1:
+                v = strip_all_casts(v["args"][0])
+            if v.get("k") == "call" and callee_name(v) in ("std::move",) and v.get("args"):
+                v = strip_all_casts(v["args"][0])
+            if v.get("k") != "ref":
+                continue  # null (R7 above) or the result of the converter it delegates to
+            npk += 1
+            els = [x for _, x in p.elems()]
+            sp = [i for i, x in enumerate(els) if x.get("k") == "call" and callee_name(x) == "ASAM::CMP::Packet::setPayload" and
+                  v["decl"] in reads(x.get("obj", {})) | depends(f, x.get("obj", {}))[0]]
+            if not sp:
+                bad = bad or "the returned packet never receives the converted payload (no setPayload on it)"
+                continue
+            arg = strip_all_casts(els[sp[-1]]["args"][0]) if els[sp[-1]].get("args") else {}
+            while arg.get("k") == "construct" and len(arg.get("args", [])) == 1:
+                arg = strip_all_casts(arg["args"][0])
+            obj = arg.get("decl")
+            later = [x for x in els[sp[-1] + 1:] if x.get("k") == "call" and callee_name(x) in setters and strip_all_casts(x.get("obj", {})).get("decl") == obj]
+            built = [x for x in els[:sp[-1]] if x.get("k") == "call" and callee_name(x) in setters and strip_all_casts(x.get("obj", {})).get("decl") == obj]
+            own = [x for x in els if x.get("k") == "call" and callee_name(x) in setters and "obj" in x and (strip_all_casts(x["obj"]).get("t") or {}).get("k") == "rec"]
+            if later:
+                bad = bad or "%s is applied to the payload object after it was copied into the packet" % callee_name(later[0]).split("::")[-1]
+            elif own and not built:
+                bad = bad or "setPayload is given an object other than the one the converted fields were written to"
+        if npk:
+            res.check(bad is None, "C15-R7", "payload-attached:%s" % fname.split("::")[-1], f.loc, "the built payload is attached to the returned packet on every path (%d)" % npk,
+                      "%s: %s" % (fname, bad))
     # ---- R4 layouts
     obs, _ = accessors.analyse(fb, ctx.spec("layout.json"))
     for o in obs:
